@@ -17,15 +17,17 @@ def run(ctx):
     triples = charfam.flag_triples(rng, 900 if quick else 0, exhaustive=not quick)
     scen = []
     for (a, r, x) in triples:
-        variants = [rng.randrange(5)] if quick else [0, rng.randrange(1, 5)]
+        variants = [rng.randrange(7)] if quick else [0, rng.randrange(1, 7)]
         for v in variants:
-            L = rng.choice([1, 2, 8, 40])
+            L = rng.choice([1, 2, 8, 40, 96, 128])
             scen.append(charfam.flag_scen(a, r, x, v, L, 4 if quick else 6, "flag-paths"))
     uni = charfam.tlc_universe(ctx, 3, 2)
     rng.shuffle(uni)
     scen += [charfam.concretize(s, rng) for s in uni[: (100 if quick else 1500)]]
     scen += charfam.seeded_small(ctx, rng, 40 if quick else 400)
     files, cells, leaves = charfam.run_scenarios(ctx, scen, "c03", shards=vlib.NCPU)
+    sf, sc_, sl = charfam.run_sequences(ctx, charfam.collision_sequences(), "c03")
+    files, cells, leaves = files + sf, cells + sc_, leaves + sl
     verdicts, decided = charfam.validate(ctx, files)
     ctx.evaluations = leaves + cells
     nt = 0
